@@ -11,7 +11,7 @@ STRING_STATES = ["OscString", "DcsPassthrough", "DcsIgnore", "SosPmApcString"]
 SWALLOW_STATES = STRING_STATES + ["DcsEntry", "DcsParam", "DcsIntermediate", "CsiIgnore"]
 
 
-def run(ctx, w):
+def _run(ctx, w):
     tb = tables.parser_tables(w)
     ctx.explanation = (
         "Inertness of control strings and unimplemented sequences is decided on the extracted parser tables: the "
@@ -208,6 +208,8 @@ def direct_step(ctx, w, fn, feed, execu, rule):
     if len(ex_sites) != 1 or len(fd_sites) != 1:
         return
     ex, fd = ex_sites[0], fd_sites[0]
+    ctx.check(b.every_path_to_return_hits((0, 0), {fd.point}, include_start=True) or any(True for bl in b.normal_blocks() if b.term(bl)["k"] == "call" and (b.term(bl)["callee"].get("decl_name") == "next")),
+              rule, fn + ":always-steps", "%s can return without handing its character to the parser: some characters are treated differently depending on the entry point used" % fn, loc=w.fn_loc(fn))
     arg = T.operand(ex.term["args"][1], ex.point)
     s_ = repr(arg)
     ctx.check(feed in s_ and "Some" in s_ and "downcast" in s_, rule, fn + ":argument", "the executor's argument is %s, not the payload of the parser's result" % w.tstr(fn, arg), loc=w.site_loc(ex), sample={"argument": w.tstr(fn, arg)})
@@ -229,3 +231,15 @@ def direct_step(ctx, w, fn, feed, execu, rule):
     recv_e = WD.strip_names(T.operand(ex.term["args"][0], ex.point))
     ctx.check(recv_f[0] == "ref" and recv_e[0] == "ref" and recv_f[2][0] == "load" and recv_e[2][0] == "load" and recv_f[2] != recv_e[2], rule, fn + ":receivers",
               "the parser step and the executor must act on Vt's own parser and terminal", loc=w.site_loc(ex))
+
+
+def run(ctx, w):
+    _run(ctx, w)
+    # "inert" also means: no stale state is left behind and nothing panics, however long or oddly shaped the
+    # unimplemented sequence is (parameter / sub-parameter counters stay inside their arrays; a clear really clears; the
+    # collected intermediate is the last one)
+    from rules import c03, c01
+    shared_embed = __import__("rules.shared", fromlist=["x"]).embed
+    shared_embed(ctx, w, lambda c, ww: c03.run_t7(c, ww, tables.parser_tables(ww)))
+    shared_embed(ctx, w, lambda c, ww: c03.capacity(c, ww, tables.parser_tables(ww)))
+    shared_embed(ctx, w, lambda c, ww: c01.index_fields(c, ww, c01.api_reach(ww)))
